@@ -263,6 +263,14 @@ def templates(col, lang):
     for t in M.bodiless_templates(lang):
         r = call_sut(scan, lang, t)
         col.eval({"lang": lang, "text": t}, nontrivial=r[0] == "ok" and len(r[1]) >= 1, labels=["class:bodiless-header", f"lang:{lang}"])
+    # tab-indented sources, as files on disk (the file route must report positions of the text as it is in the file)
+    tabbed = {
+        "Python": ["class K:\n\tdef m(self):\n\t\treturn 1\n\tdef n(self, a):\n\t\tif a:\n\t\t\treturn a\n\t\treturn 0\n", "def f(a):\n\tx = 1\t# c\n\treturn x\n",
+                   "def o():\n\tdef i(b):\t\n\t\treturn\tb\n\treturn i\n", "if x:\n\tdef f(a):\n\t\treturn a\n"],
+    }.get(lang) or [tree.flat_file(lang, [3, 2]).replace("  ", "\t"), "\t" + tree.flat_file(lang, [4]).replace("\n", "\n\t")]
+    for t in tabbed:
+        for via in ("scan_file", "scan_path"):
+            col.eval({"lang": lang, "text": t, "via": via}, nontrivial=True, labels=["class:tab-indented", f"lang:{lang}", f"via:{via}"])
     from vf.gen.lasttoken import multiline_last_token_templates
 
     for t in multiline_last_token_templates(lang):
